@@ -57,6 +57,10 @@ func (op Operator) Format(out io.Writer) error {
 			slices.Sort(keys)
 			for _, key := range keys {
 				val := dict[key]
+				if val == nil {
+					// a nil entry is an absent entry
+					continue
+				}
 				// write the key as a PDF name (with #xx escapes where needed)
 				if err := pdf.Format(out, pdf.OptContentStream, key); err != nil {
 					return err
